@@ -96,6 +96,40 @@ def ifilter_section(ctx):
                                        "or left nesting deeper than one level" % case["master"])
 
 
+def promotions(font, after):
+    """for every composite made only of mark components whose name looks like a mark ligature: the index, among its mark
+    components, of the one whose outline reaches closest to the origin -- the input `promo` of Geometry/Propagate.v.
+    Computed with fontTools' BoundsPen through a TransformPen on the source glyphs (outlines are not touched by the filter);
+    nothing of ufo2ft"""
+    from fontTools.pens.boundsPen import BoundsPen
+    from fontTools.pens.transformPen import TransformPen
+    by = {g["name"]: g for g in after}
+    is_mark = lambda b: any(a[0].startswith("_") for a in by[b]["anchors"])
+    out = []
+    for g in after:
+        comps = [(b, t) for b, t in g["components"] if b in by]
+        if not comps or not all(is_mark(b) for b, _ in comps) or g["name"].startswith("_") or "_" not in g["name"]:
+            continue
+        dist = []
+        for b, t in comps:
+            bp = BoundsPen(font)
+            try:
+                font[b].draw(TransformPen(bp, tuple(float(v) for v in t)))
+            except Exception:
+                bp = None
+            if bp is None or bp.bounds is None:
+                dist = None
+                break
+            dist.append(bp.bounds[0] ** 2 + bp.bounds[1] ** 2)
+        if dist:
+            out.append((g["name"], dist.index(min(dist))))
+    return out
+
+
+def g_promo(pr):
+    return G.lst([G.tup(G.s(n), "%d%%nat" % k) for n, k in pr], "(str * nat)")
+
+
 def mark_of_marks_section(ctx):
     """anchor propagation into a mark LIGATURE made only of marks: the component whose OUTLINE reaches closest to the origin
     (lower-left corner of its true bounds, off-curve handles not counted) acts as the base; the composite gets that
@@ -107,6 +141,7 @@ def mark_of_marks_section(ctx):
     from ufo2ft.filters.propagateAnchors import PropagateAnchorsFilter
     from fontTools.pens.boundsPen import BoundsPen
     from fontTools.pens.transformPen import TransformPen
+    mom_cases, mom_meta = [], []
     for i in range(ctx.budget(12, 24)):
         lib = ["ufoLib2", "defcon"][i % 2]
         poly_bottom = [500, 480, 520][(i // 2) % 3]
@@ -132,7 +167,9 @@ def mark_of_marks_section(ctx):
         try:
             font = build_font(desc, lib)
             gset = _GlyphSet.from_layer(font)
+            before = geom.snapshot_glyphset(gset)
             PropagateAnchorsFilter()(font, gset)
+            after = geom.snapshot_glyphset(gset)
             got = [(a.name, Fr(a.x), Fr(a.y)) for a in gset["tildecomb_acutecomb"].anchors]
             # the oracle: true outline bounds of every component as placed
             ref = build_font(desc, lib)
@@ -145,6 +182,10 @@ def mark_of_marks_section(ctx):
             ctx.spec_failure(case, "PropagateAnchorsFilter raised %s: %s\n%s" % (type(e).__name__, e, traceback.format_exc()[-1000:]))
             continue
         k = dist.index(min(dist))
+        # ... and the transcription (Geometry/Propagate.v) with the promoted component as its input
+        mom_cases.append(G.tup(G.lst([G.s(n) for n in desc["glyphOrder"]], "str"), G.lst([G.s(n) for n in desc["glyphOrder"]], "str"),
+                               geom.g_glyphset(before), geom.g_glyphset(after), g_promo(promotions(build_font(desc, lib), after))))
+        mom_meta.append(case)
         by = {g["name"]: {a[0]: (a[1], a[2]) for a in g["anchors"]} for g in desc["glyphs"]}
         (pb, pt), (mb, mt) = comps[k], comps[1 - k]
         want = {n: geom.apply_aff(pt, xy) for n, xy in by[pb].items()}
@@ -155,6 +196,15 @@ def mark_of_marks_section(ctx):
                              "outline's lower-left corners: %r), which gives %r" % (
                                  [(n, float(x), float(y)) for n, x, y in got], pb, [float(d) for d in dist],
                                  sorted((n, float(x), float(y)) for n, (x, y) in want.items())))
+
+
+    pv = ctx.coq_eval("From U2F Require Import Base.Prelude Geometry.Model Geometry.Propagate.",
+                      "fun c : (list str * list str * glyphset * glyphset * list (str * nat)) => let '(mk, incl, gs, gs', promo) := c in "
+                      "match propagate_all_p mk promo incl gs with None => 4 | Some r => if glyphset_anchors_eqb r gs' then 3 else 2 end",
+                      mom_cases, chunk=6, tag="PropagateMom")
+    for v, case in zip(pv, mom_meta):
+        if v is not None and v != 3:
+            ctx.corr_mismatch(case, "Gallina propagate_all_p (Geometry/Propagate.v, promoted component supplied) differs from PropagateAnchorsFilter's anchors (code %s)" % v)
 
 
 def explore(ctx):
@@ -314,7 +364,8 @@ def explore(ctx):
         else:
             check_propagate(ctx, case, before, after, font, kw, lib, desc)
             # the transcription (Geometry/Propagate.v) on the same glyph set: same anchors, glyph by glyph
-            prop[0].append(G.tup(G.lst([], "str"), G.lst([G.s(n) for n in names if n in included], "str"), g0, g1))
+            prop[0].append(G.tup(G.lst([], "str"), G.lst([G.s(n) for n in names if n in included], "str"), g0, g1,
+                                 g_promo(promotions(build_font(desc, lib), after))))
             prop[1].append(case)
     mv = ctx.coq_eval("From Coq Require Import QArith Qcanon.\nFrom U2F Require Import Base.Prelude Geometry.Model Geometry.TransformMatrix.",
                       "fun c : (Qc * Qc * Qc * Qc * Qc * Qc * affine) => let '(ox, oy, fx, fy, t, h, m) := c in "
@@ -323,12 +374,12 @@ def explore(ctx):
         if v is not None and v != 3:
             ctx.corr_mismatch(case, "the check's requested matrix differs from the Gallina build_matrix (TransformationsFilter.set_context, step by step)")
     pv = ctx.coq_eval("From U2F Require Import Base.Prelude Geometry.Model Geometry.Propagate.",
-                      "fun c : (list str * list str * glyphset * glyphset) => let '(mk, incl, gs, gs') := c in "
-                      "match propagate_all mk incl gs with None => 4 | Some r => if glyphset_anchors_eqb r gs' then 3 else 2 end",
+                      "fun c : (list str * list str * glyphset * glyphset * list (str * nat)) => let '(mk, incl, gs, gs', promo) := c in "
+                      "match propagate_all_p mk promo incl gs with None => 4 | Some r => if glyphset_anchors_eqb r gs' then 3 else 2 end",
                       prop[0], chunk=6, tag="Propagate")
     for v, case in zip(pv, prop[1]):
         if v == 4:
-            ctx.klass("propagate: a mark made of marks (promotion by bounds, not modelled)")
+            ctx.corr_mismatch(case, "Gallina propagate_all_p answers None (a glyph outside the model) although the promotions were supplied")
         elif v is not None and v != 3:
             ctx.corr_mismatch(case, "Gallina propagate_all (Geometry/Propagate.v) differs from PropagateAnchorsFilter's anchors")
     for (cases, meta), fn, tag, msg in (
